@@ -22,11 +22,15 @@ Record jobspec := {
   j_deps : list dep;       (* job.dependencies in the iteration order of the set *)
   j_code : Z;              (* exit code of the process, should it be launched *)
   j_marker : bool;         (* the .done marker exists at submission *)
-  j_ident : nat            (* identifier (duplicates allowed) *)
+  j_ident : nat;           (* identifier (duplicates allowed) *)
+  j_adopt : option (option Z * bool)
+                           (* a process started by an earlier scheduler is still running at submission
+                              (aio_process() returns it): the exit code aio_code() will give (None when it
+                              cannot be retrieved) and whether the .done marker exists once it has ended *)
 }.
 Record workload := { w_jobs : list jobspec; w_tokens : list nat }.
 
-Definition nojob := {| j_deps := []; j_code := 1; j_marker := false; j_ident := 0 |}.
+Definition nojob := {| j_deps := []; j_code := 1; j_marker := false; j_ident := 0; j_adopt := None |}.
 Definition spec (W : workload) (j : nat) : jobspec := nth j (w_jobs W) nojob.
 Definition deps W j := j_deps (spec W j).
 Definition njobs W := length (w_jobs W).
@@ -35,7 +39,7 @@ Definition total W t := nth t (w_tokens W) 0%nat.
 (* ------------------------------------------------------------------ state *)
 Inductive jstate := UNSCHEDULED | WAITING | READY | RUNNING | DONE | ERROR.   (* SCHEDULED is never assigned here *)
 Inductive dstatus := DWAIT | DOK | DFAIL.
-Inductive await := ALockIn | ALockOutAbort | ALockOutRun | AProc | ADoneH.
+Inductive await := ALockIn | ALockOutAbort | ALockOutRun | AProc | ADoneH | AAdopt.
 Inductive pcT :=
   | PNot                         (* not submitted *)
   | PDup (k : nat)               (* submit() returned the job already registered; no coroutine *)
@@ -226,18 +230,40 @@ Fixpoint reg_l (f3 : bool) (r : jst) (news : list dstatus) (i : nat) : jst :=
   | n :: rest => reg_l f3 (fst (check_l f3 r i n)) rest (S i)
   end.
 
-(* aio_submit up to its first suspension *)
-Definition spawn_l (f3 : bool) (marker : bool) (r : jst) (news : list dstatus) : jst * bool :=
+(* the final state given by an adopted process: `DONE if code == 0 else ERROR`, then the marker check *)
+Definition adopt_state (a : option Z * bool) : jstate :=
+  match a with
+  | (Some 0, _) => DONE
+  | (_, true) => DONE
+  | (_, false) => ERROR
+  end.
+Definition adopted (W : workload) (j : nat) : option jstate := option_map adopt_state (j_adopt (spec W j)).
+
+(* aio_submit up to its first suspension; when a process is already running for the job
+   (ad = true) the state becomes RUNNING and the coroutine waits for that process *)
+Definition spawn_l (f3 : bool) (marker : bool) (ad : bool) (r : jst) (news : list dstatus) : jst * bool :=
   let r0 := w_st (w_ev r false) WAITING in
   let r1 :=
     match news with
     | [] => w_st (w_ev r0 true) READY
     | _ => reg_l f3 (w_cur (w_uns r0 (Z.of_nat (length news))) (repeat DWAIT (length news))) news 0
     end in
-  main_loop_l (if marker then w_st r1 DONE else r1).
+  let r2 := if marker then w_st r1 DONE else r1 in
+  if ad then (w_pc (w_st r2 RUNNING) (PExt AAdopt), false) else main_loop_l r2.
+
+Definition is_some_b {A} (o : option A) : bool := match o with Some _ => true | None => false end.
 
 Definition run_spawn (W : workload) (fx : fixes) (s : state) (j : nat) : state :=
-  commit s j (spawn_l (fx3 fx) (j_marker (spec W j)) (jobs s j) (map (dep_status s) (deps W j))).
+  commit s j (spawn_l (fx3 fx) (j_marker (spec W j)) (is_some_b (j_adopt (spec W j))) (jobs s j)
+                      (map (dep_status s) (deps W j))).
+
+(* the adopted process has ended: `job.state = DONE if code == 0 else ERROR`, marker check, loop *)
+Definition adopt_l (v : jstate) (r : jst) : jst * bool := loop_tail_l (w_st r v).
+Definition adopt_return (W : workload) (s : state) (j : nat) : state :=
+  match adopted W j with
+  | Some v => commit s j (adopt_l v (jobs s j))
+  | None => s
+  end.
 
 (* for dependency in job.dependencies: locks.append(dependency.lock().acquire()) *)
 Fixpoint acquire_l (av : nat -> nat) (hd : list (nat * nat)) (ds : list dep) (i : nat)
@@ -304,6 +330,7 @@ Definition run_step (W : workload) (fx : fixes) (s : state) (j : nat) : state :=
   | PWoken ALockOutRun => setjob s j (w_pc (jobs s j) (PExt AProc))
   | PWoken AProc => proc_return W s j
   | PWoken ADoneH => done_return W s j
+  | PWoken AAdopt => adopt_return W s j
   | _ => s
   end.
 
